@@ -149,6 +149,7 @@ pub struct Shared {
     pub shutdown_time: AtomicU64,
     pub server_done: AtomicBool,
     pub server_done_time: AtomicU64,
+    pub alive_at_return: AtomicU32,
     /// number of connections with a reply received and not yet ended by the client (C15)
     pub held: AtomicU32,
     pub max_held: AtomicU32,
@@ -541,6 +542,7 @@ pub fn start_server(ctx: &mut Ctx, scn: &NetScn, h: &bc::Handle) -> Srv {
         shutdown_time: AtomicU64::new(0),
         server_done: AtomicBool::new(false),
         server_done_time: AtomicU64::new(0),
+        alive_at_return: AtomicU32::new(0),
         held: AtomicU32::new(0),
         max_held: AtomicU32::new(0),
     });
@@ -562,6 +564,9 @@ pub fn start_server(ctx: &mut Ctx, scn: &NetScn, h: &bc::Handle) -> Srv {
             Ok(server) => server.run().await,
             Err(e) => *be.lock().unwrap() = Some(format!("{}", e)),
         }
+        // connection tasks still alive at the instant run() returns (this task is one)
+        let alive = simrt::exec::current_rt().map(|rt| rt.alive_tasks()).unwrap_or(1);
+        sh2.alive_at_return.store(alive.saturating_sub(1) as u32, Ordering::SeqCst);
         sh2.server_done_time.store(simrt::sched::now_ns(), Ordering::SeqCst);
         sh2.server_done.store(true, Ordering::SeqCst);
     });
@@ -1241,6 +1246,13 @@ pub fn run_c16(ctx: &mut Ctx, scn: &NetScn, seed: u64) {
             ctx.sim.probe("request_unanswered_at_shutdown");
         }
         ctx.observe_bytes(&c.received);
+    }
+    // (1b) run() returns only once the connections have wound down
+    if returned {
+        let n = run.srv.sh.alive_at_return.load(Ordering::SeqCst);
+        if n > 0 {
+            ctx.viol("returned-before-connections-wound-down", format!("Server::run returned while {} connection task(s) were still alive (a command or reply could still be in progress)", n), "");
+        }
     }
     // (4) nothing of the server is left: the port can be bound again
     if returned {
